@@ -111,7 +111,7 @@ func c06UseSites() []useSite {
 			}},
 		// a column alias of the same name does not hide the binding in later expressions
 		{name: "sort-after-extend-alias", pos: "custom",
-			tree: w(func(n gen.Expr) gen.Expr { return &gen.Binary{Op: "+", X: n, Y: na} }),
+			tree:  w(func(n gen.Expr) gen.Expr { return &gen.Binary{Op: "+", X: n, Y: na} }),
 			build: func(e string) string { return "T | extend " + identOf(e) + " = nb * 2 | sort by " + e + " asc" },
 			extract: func(st *sqlx.Stmt) ([]sqlx.Expr, error) {
 				if len(st.Q.OrderBy) != 1 {
@@ -120,7 +120,7 @@ func c06UseSites() []useSite {
 				return []sqlx.Expr{st.Q.OrderBy[0].X}, nil
 			}},
 		{name: "top-after-extend-alias", pos: "custom",
-			tree: w(func(n gen.Expr) gen.Expr { return &gen.Binary{Op: "-", X: na, Y: n} }),
+			tree:  w(func(n gen.Expr) gen.Expr { return &gen.Binary{Op: "-", X: na, Y: n} }),
 			build: func(e string) string { return "T | where na > 0 | extend " + identOf(e) + " = nb | top 3 by " + e },
 			extract: func(st *sqlx.Stmt) ([]sqlx.Expr, error) {
 				if len(st.Q.OrderBy) != 1 {
@@ -129,7 +129,7 @@ func c06UseSites() []useSite {
 				return []sqlx.Expr{st.Q.OrderBy[0].X}, nil
 			}},
 		{name: "where-after-project-alias", pos: "custom",
-			tree: w(func(n gen.Expr) gen.Expr { return &gen.Binary{Op: "==", X: na, Y: n} }),
+			tree:  w(func(n gen.Expr) gen.Expr { return &gen.Binary{Op: "==", X: na, Y: n} }),
 			build: func(e string) string { return "T | project na, " + identOf(e) + " = nb | where " + e },
 			extract: func(st *sqlx.Stmt) ([]sqlx.Expr, error) {
 				if st.Q.Where == nil {
@@ -138,7 +138,7 @@ func c06UseSites() []useSite {
 				return []sqlx.Expr{st.Q.Where}, nil
 			}},
 		{name: "where-after-summarize-alias", pos: "custom",
-			tree: w(func(n gen.Expr) gen.Expr { return &gen.Binary{Op: "<", X: n, Y: na} }),
+			tree:  w(func(n gen.Expr) gen.Expr { return &gen.Binary{Op: "<", X: n, Y: na} }),
 			build: func(e string) string { return "T | summarize " + identOf(e) + " = count() by na | where " + e },
 			extract: func(st *sqlx.Stmt) ([]sqlx.Expr, error) {
 				if st.Q.Where == nil {
